@@ -160,6 +160,17 @@ Theorem C18_objects_independent_pair : forall v objs1 ops1 objs2 ops2 n1 n2, vcf
 Proof. exact objects_independent_pair. Qed.
 Print Assumptions C18_objects_independent_pair.
 
+(* ---- getAllele(reads) is its getAllelesAt calls followed by a pure fold (a fresh set: the table is not touched);
+        along any history the sets it returns are those the specification's answers give *)
+Theorem C18_getAllele_spec : forall v h, vcf_ok v = true -> hist_ok h = true ->
+  map alleles_of (snd (run_history v [] h)) = map (fun run => alleles_of (spec_run v run)) h.
+Proof. exact get_allele_spec. Qed.
+Print Assumptions C18_getAllele_spec.
+
+Theorem C18_getAllele_keeps_single_sample_answers : forall a, allele_keep a = match a with ASome [s] => [s] | _ => [] end.
+Proof. exact allele_keep_shape. Qed.
+Print Assumptions C18_getAllele_keeps_single_sample_answers.
+
 (* equal settings (possibly written differently) build the same table: what makes a shared cache file sound *)
 Theorem C18_same_settings_same_table : forall cf1 cf2 r, same_sem cf1 cf2 = true -> informative cf1 r = informative cf2 r.
 Proof. exact same_sem_informative. Qed.
